@@ -47,6 +47,10 @@ pub struct Config {
     /// or park forever (fork-per-case: the child `_exit`s; required when `extern "C"` frames
     /// such as the signal dispatcher may be on the stack)
     pub abort_unwind: bool,
+    /// directed schedule prefix: run `thread` exclusively until it has arrived at `n` points of
+    /// the given class (0 = until done, 1 = Body, 2 = Spin/Yield, 3 = any point); consumed
+    /// before the byte schedule
+    pub script: Vec<(usize, u8, u32)>,
 }
 
 impl Default for Config {
@@ -58,6 +62,7 @@ impl Default for Config {
             weak: true,
             log_ops: true,
             abort_unwind: false,
+            script: vec![],
         }
     }
 }
@@ -215,6 +220,8 @@ struct State {
     cells: Cells,
     nested_done: Vec<bool>,
     driver_depth: u32,
+    script_pos: usize,
+    script_count: u32,
 }
 
 pub struct Exec {
@@ -379,6 +386,13 @@ impl State {
             self.solo_blocked = true;
             self.solo = None;
         }
+        while self.script_pos < self.cfg.script.len() {
+            let (t, _, _) = self.cfg.script[self.script_pos];
+            if t < self.nthreads && matches!(self.threads[t].status, Status::Runnable | Status::NotStarted) {
+                return Some(t);
+            }
+            self.script_advance();
+        }
         let n = self.nthreads;
         let mut cands: Vec<usize> = Vec::with_capacity(n);
         let mut late: Vec<usize> = Vec::new();
@@ -404,6 +418,35 @@ impl State {
             0
         };
         Some(cands[idx])
+    }
+
+    fn script_advance(&mut self) {
+        self.script_pos += 1;
+        self.script_count = 0;
+        if self.script_pos == self.cfg.script.len() {
+            self.rec(-1, Item::Mark { name: "script-end", a: 0, b: 0 });
+        }
+    }
+
+    /// Thread `me` arrives at a point of kind `kind`: does that complete the current directive?
+    fn script_arrival(&mut self, me: usize, kind: Kind) {
+        if self.script_pos < self.cfg.script.len() {
+            let (t, class, n) = self.cfg.script[self.script_pos];
+            if t == me {
+                let hit = match class {
+                    1 => kind == Kind::Body,
+                    2 => matches!(kind, Kind::Spin | Kind::Yield),
+                    3 => true,
+                    _ => false,
+                };
+                if hit {
+                    self.script_count += 1;
+                    if self.script_count >= n {
+                        self.script_advance();
+                    }
+                }
+            }
+        }
     }
 
     fn all_done(&self) -> bool {
@@ -477,6 +520,8 @@ impl Exec {
                 cells: Cells::default(),
                 nested_done,
                 driver_depth: 0,
+                script_pos: 0,
+                script_count: 0,
             }),
             cvs: (0..MAX_THREADS).map(|_| Condvar::new()).collect(),
             driver_cv: Condvar::new(),
@@ -557,8 +602,9 @@ impl Exec {
     }
 
     /// Common prologue of every scheduling point of thread `me`.
-    fn point_prologue(self: &Arc<Self>, me: usize, is_wait: bool) {
+    fn point_prologue(self: &Arc<Self>, me: usize, is_wait: bool, kind: Kind) {
         let mut st = State::lock(self);
+        st.script_arrival(me, kind);
         // A thread stepping clears the yield marks of everybody else.
         for i in 0..st.nthreads {
             if i != me {
@@ -591,7 +637,7 @@ impl Exec {
                         st.nested_run += 1;
                         st.rec(me as i32, Item::NestedStart { id });
                     }
-                    f(id);
+                    crate::alloc::as_library(|| f(id));
                     {
                         let mut st = State::lock(self);
                         st.rec(me as i32, Item::NestedEnd { id });
@@ -607,7 +653,7 @@ impl Exec {
         op: &OpDesc,
         real: &dyn Fn(bool) -> Real,
     ) -> (u64, bool) {
-        self.point_prologue(me, false);
+        self.point_prologue(me, false, op.kind);
         let mut st = State::lock(self);
         let weak = st.cfg.weak;
         let log_ops = st.cfg.log_ops;
@@ -770,7 +816,7 @@ impl Exec {
             }
         }
         loop {
-            self.point_prologue(me, true);
+            self.point_prologue(me, true, Kind::MutexLock);
             let mut st = State::lock(self);
             let free = st.mutexes.entry(addr).or_default().owner.is_none();
             if free {
@@ -786,7 +832,7 @@ impl Exec {
     }
 
     fn do_mutex_try_lock(self: &Arc<Self>, me: usize, addr: usize) -> bool {
-        self.point_prologue(me, false);
+        self.point_prologue(me, false, Kind::MutexTryLock);
         let mut st = State::lock(self);
         let free = st.mutexes.entry(addr).or_default().owner.is_none();
         if free {
@@ -813,7 +859,7 @@ impl Exec {
             let mut st = State::lock(self);
             st.threads[me].yielded = true;
         }
-        self.point_prologue(me, is_wait);
+        self.point_prologue(me, is_wait, kind);
         let mut st = State::lock(self);
         st.rec(me as i32, Item::Point { kind, a });
         if kind == Kind::CellAccess {
@@ -846,7 +892,7 @@ impl Exec {
             }
         }
         loop {
-            self.point_prologue(me, true);
+            self.point_prologue(me, true, Kind::BlockReadable);
             let mut st = State::lock(self);
             if fd_readable(fd) {
                 st.threads[me].status = Status::Runnable;
@@ -1078,6 +1124,7 @@ impl Exec {
 
 impl Hooks for TheHooks {
     fn atomic(&self, op: &OpDesc, real: &dyn Fn(bool) -> Real) -> (u64, bool) {
+        let _h = crate::alloc::Harness::enter();
         match vt() {
             Some((e, me)) => e.do_atomic(me, op, real),
             None => {
@@ -1087,32 +1134,38 @@ impl Hooks for TheHooks {
         }
     }
     fn mutex_lock(&self, addr: usize) {
+        let _h = crate::alloc::Harness::enter();
         if let Some((e, me)) = vt() {
             e.do_mutex_lock(me, addr)
         }
     }
     fn mutex_try_lock(&self, addr: usize) -> bool {
+        let _h = crate::alloc::Harness::enter();
         match vt() {
             Some((e, me)) => e.do_mutex_try_lock(me, addr),
             None => true,
         }
     }
     fn mutex_unlock(&self, addr: usize, _panicking: bool) {
+        let _h = crate::alloc::Harness::enter();
         if let Some((e, me)) = vt() {
             e.do_mutex_unlock(me, addr)
         }
     }
     fn point(&self, op: &OpDesc) {
+        let _h = crate::alloc::Harness::enter();
         if let Some((e, me)) = vt() {
             e.do_point(me, op.kind, op.addr)
         }
     }
     fn block_readable(&self, fd: i32) {
+        let _h = crate::alloc::Harness::enter();
         if let Some((e, me)) = vt() {
             e.do_block_readable(me, fd)
         }
     }
     fn event(&self, ev: Event, a: usize, b: usize) {
+        let _h = crate::alloc::Harness::enter();
         match vt() {
             Some((e, me)) => e.do_event(me as i32, ev, a, b),
             None => {
@@ -1129,11 +1182,13 @@ impl Hooks for TheHooks {
 
 /// Virtual thread id of the caller, if any.
 pub fn tid() -> Option<usize> {
+    let _h = crate::alloc::Harness::enter();
     vt().map(|(_, t)| t)
 }
 
 /// Log the start of an API call; returns its id.
 pub fn call(name: &'static str, a: i64, b: i64) -> u32 {
+    let _h = crate::alloc::Harness::enter();
     match vt() {
         Some((e, me)) => {
             let mut st = State::lock(&e);
@@ -1156,6 +1211,7 @@ pub fn call(name: &'static str, a: i64, b: i64) -> u32 {
 }
 
 pub fn ret(id: u32, r: i64) {
+    let _h = crate::alloc::Harness::enter();
     match vt() {
         Some((e, me)) => State::lock(&e).rec(me as i32, Item::Ret { id, r }),
         None => {
@@ -1167,6 +1223,7 @@ pub fn ret(id: u32, r: i64) {
 }
 
 pub fn mark(name: &'static str, a: i64, b: i64) {
+    let _h = crate::alloc::Harness::enter();
     match vt() {
         Some((e, me)) => State::lock(&e).rec(me as i32, Item::Mark { name, a, b }),
         None => {
@@ -1179,6 +1236,7 @@ pub fn mark(name: &'static str, a: i64, b: i64) {
 
 /// A harness-level scheduling point (e.g. inside an action body).
 pub fn body_point(tag: usize) {
+    let _h = crate::alloc::Harness::enter();
     if let Some((e, me)) = vt() {
         e.do_point(me, Kind::Body, tag)
     }
@@ -1186,6 +1244,7 @@ pub fn body_point(tag: usize) {
 
 /// Current handler depth of the calling context.
 pub fn depth() -> u32 {
+    let _h = crate::alloc::Harness::enter();
     match vt() {
         Some((e, me)) => State::lock(&e).threads[me].depth,
         None => current().map(|e| State::lock(&e).driver_depth).unwrap_or(0),
@@ -1194,6 +1253,8 @@ pub fn depth() -> u32 {
 
 /// Run `f` as a signal handler would run: handler depth +1 for its duration.
 pub fn in_handler<R>(f: impl FnOnce() -> R) -> R {
+    let _h = crate::alloc::Harness::enter();
+    let f = || crate::alloc::as_library(f);
     match vt() {
         Some((e, me)) => {
             State::lock(&e).threads[me].depth += 1;
@@ -1215,6 +1276,8 @@ pub fn in_handler<R>(f: impl FnOnce() -> R) -> R {
 
 /// Run `f` with every other virtual thread frozen. Records SoloStart/SoloEnd.
 pub fn solo<R>(f: impl FnOnce() -> R) -> R {
+    let _h = crate::alloc::Harness::enter();
+    let f = || crate::alloc::as_library(f);
     match vt() {
         Some((e, me)) => {
             {
@@ -1242,8 +1305,9 @@ pub fn solo<R>(f: impl FnOnce() -> R) -> R {
 
 /// Harness synchronisation variable: signal (release).
 pub fn sync_signal(x: u32) {
+    let _h = crate::alloc::Harness::enter();
     if let Some((e, me)) = vt() {
-        e.point_prologue(me, false);
+        e.point_prologue(me, false, Kind::Body);
         let mut st = State::lock(&e);
         let tvc = st.threads[me].vc;
         let s = st.syncs.entry(x).or_default();
@@ -1255,6 +1319,7 @@ pub fn sync_signal(x: u32) {
 
 /// Harness synchronisation variable: wait (acquire), blocks the virtual thread until signalled.
 pub fn sync_wait(x: u32) {
+    let _h = crate::alloc::Harness::enter();
     if let Some((e, me)) = vt() {
         {
             let mut st = State::lock(&e);
@@ -1263,7 +1328,7 @@ pub fn sync_wait(x: u32) {
             }
         }
         loop {
-            e.point_prologue(me, true);
+            e.point_prologue(me, true, Kind::Body);
             let mut st = State::lock(&e);
             if st.syncs.entry(x).or_default().set {
                 let v = st.syncs[&x].vc;
@@ -1291,6 +1356,7 @@ pub fn violate_and_abort(key: &str, msg: String) -> ! {
 
 /// Record a violation without stopping.
 pub fn violate(key: &str, msg: String) {
+    let _h = crate::alloc::Harness::enter();
     match vt() {
         Some((e, _)) => State::lock(&e).violate(key, msg),
         None => {
@@ -1303,6 +1369,7 @@ pub fn violate(key: &str, msg: String) {
 
 /// Record a panic caught on the driver thread.
 pub fn driver_panic(msg: String) {
+    let _h = crate::alloc::Harness::enter();
     if let Some(e) = current() {
         State::lock(&e).rec(-1, Item::Panic { msg });
     }
